@@ -1,7 +1,10 @@
 -- Root of the library: everything the checks build.
 import OsacaVerif.Props.C01
 import OsacaVerif.Props.C02
+import OsacaVerif.Props.C07
+import OsacaVerif.Props.C08
 import OsacaVerif.Props.C12
 import OsacaVerif.Props.C15
 import OsacaVerif.Driver.C01
+import OsacaVerif.Driver.C07
 import OsacaVerif.Driver.C12
